@@ -266,7 +266,8 @@ def apply_declared(ob, declared_desc, built, rec=None):
             for k in keys:
                 want = table[did].get(k)
                 if k == "vsl" and want is not None:
-                    want = sorted(want)
+                    # the constructor sorts what it is given; a list the caller edited in place afterwards is used as it stands
+                    want = list(want) if table[did].get("vsl_live_order") else sorted(want)
                 if e.get(k) != want:
                     if rec is not None:
                         rec.count("live_attribute_differs_from_declared")
